@@ -640,3 +640,21 @@ fn enc_a85_enc_tail3_after_group() {
     assert!(matches!(&want, Some((n, w)) if *n == 7 && same(&w[..7], &d)));
     std::mem::forget(e);
 }
+
+/// word sequences around the all-zero shorthand `z`: whatever the encoder does with a zero word, the words before and after it
+/// must still be there (concrete words, one symbolic byte so that the base-85 division stays decidable)
+fn a85_words<const N: usize, const L: usize, const O: usize>(d: [u8; N]) {
+    let e = encode(&d, &StreamFilter::ASCII85Decode).unwrap();
+    assert!(e.len() >= 2 && e.len() <= L);
+    let mut ea = [b' '; L];
+    let mut i = 0; while i < e.len() { ea[i] = e[i]; i += 1; }
+    let want = a85_ref::<L, O>(&ea);
+    assert!(matches!(&want, Some((n, w)) if *n == N && same(&w[..N], &d)));
+    std::mem::forget(e);
+}
+#[kani::proof]
+fn enc_a85_enc_zero_then_word() { let t: u8 = kani::any(); a85_words::<8, 12, 8>([0, 0, 0, 0, 0x41, 0x42, 0x43, t]) }
+#[kani::proof]
+fn enc_a85_enc_word_then_zero() { let t: u8 = kani::any(); a85_words::<8, 12, 8>([0x41, 0x42, 0x43, t, 0, 0, 0, 0]) }
+#[kani::proof]
+fn enc_a85_enc_zero_zero_word_tail() { let t: u8 = kani::any(); a85_words::<13, 20, 16>([0, 0, 0, 0, 0, 0, 0, 0, 0xfe, 0xff, 0x01, t, t]) }
